@@ -388,7 +388,7 @@ func templates(K, M int, r *hx.Rand) []ccase {
 	add(c)
 	// main-loop rules, END
 	c = mk("rules", f(`{ n++ } n == %d { R[1] = n; cancel() } { R[0] = n } END { print n }`, 1+K%3000), "live")
-	c.lines, c.kmin, c.mustCtx = 1+K%3000+1500, 7, true
+	c.lines, c.kmin, c.mustCtx = 1+K%3000+1500, 8, true // 7 instructions + the record-loop poll
 	add(c)
 	c = mk("rules-pattern-only-range", f(`BEGIN { n = 0 } { n++ } n == 3, n == 6 { m++ }
 n %% 100 == 0
